@@ -230,15 +230,15 @@ func c07Replay(args []string) int {
 				pv, _ := guarded(0, func() {
 					_, e := tr.Read()
 					if e != nil {
-						if strings.Contains(e.Error(), "unable to find element") {
-							// EDITokens!ElemLookup "missing": a *fatal* error (the statement: "is a fatal error unless a default is declared")
-							if cl := classify(e); cl == "fatal" {
-								obs = []interface{}{"missing"}
-							} else {
-								obs = []interface{}{"missing", "but the error is not fatal: " + cl}
-							}
-						} else {
-							obs = []interface{}{"error", e.Error()}
+						// EDITokens!ElemLookup "missing": a *fatal* error (the statement: "is a fatal error unless a default is
+						// declared"); the class decides, the wording is not part of the property
+						switch cl := classify(e); {
+						case cl == "fatal":
+							obs = []interface{}{"missing"}
+						case strings.Contains(e.Error(), "unable to find element"):
+							obs = []interface{}{"missing", "but the error is not fatal: " + cl}
+						default:
+							obs = []interface{}{"error", cl, e.Error()}
 						}
 						return
 					}
